@@ -28,7 +28,7 @@ worker() {
     if ! (cd $clone && go build ./... 2>/dev/null); then echo "$id: does not build"; (cd $clone && git checkout -q -- . && git clean -fdq); continue; fi
     rc=0; names=""
     for p in $props; do
-      out=$(GOVC_NO_SENSITIVITY=1 timeout 1200 /verif/bin/govc check -property "$p" -tier $tier 2>&1); r=$?
+      out=$(GOVC_NO_SENSITIVITY=1 timeout 1200 ${GOVC_BIN:-/verif/bin/govc} check -property "$p" -tier $tier 2>&1); r=$?
       [ $r -ne 0 ] && rc=$r
       names="$names $(echo "$out" | grep -E '^VIOLATION' | head -3 | sed -E 's/.*replay=[^ ]*\/[^\/]*\///' | tr '\n' ' ')"
     done
